@@ -1142,7 +1142,7 @@ func init() {
 func init() {
 	register(&Rule{
 		ID:    "C15.noepsilon",
-		Props: []string{"C15", "C03", "C09", "C13"},
+		Props: []string{"C15", "C03", "C09", "C13", "C01"},
 		Doc:   "geom and rtree decide with exact comparisons: no floating-point value is compared (<, <=, >, >=) with a built-in tolerance, i.e. a non-zero constant of magnitude below 1e-3 (tolerances only come from the caller, e.g. ToleranceXY) — merging scan-line intercepts that are closer than 1e-9 makes a thin polygon's two crossings one, and the parity argument of PointOnSurface then picks a boundary point or nothing",
 		Floor: 0,
 		Run: func(c *Ctx) {
